@@ -757,8 +757,17 @@ pub fn draw_plan(src: &mut Src, infos: &[FrameInfo], faults: Faults) -> Vec<Chun
         }
     }
     if faults.gaps {
+        // at most three long pauses per batch, so that a script stays within its time horizon
+        let mut long = 0;
         for c in chunks.iter_mut().skip(1) {
-            c.gap_ms = *src.pick(&[0i64, 0, 0, 0, 0, 0, 1, 1, 10, 1_000, 20_000, 59_999, 60_001, 61_000]);
+            let g = *src.pick(&[0i64, 0, 0, 0, 0, 0, 1, 1, 10, 1_000, 20_000, 59_999, 60_001, 61_000]);
+            if g >= 1_000 {
+                long += 1;
+                if long > 3 {
+                    continue;
+                }
+            }
+            c.gap_ms = g;
         }
     }
     chunks
